@@ -377,7 +377,14 @@ use std::mem::MaybeUninit;
 use std::panic::catch_unwind;
 use std::path::Path;
 use std::ptr::null;
+#[cfg(not(savefile_verif_shuttle))]
 use std::sync::{Arc, Mutex, MutexGuard};
+// Deterministic-simulation builds (cfg savefile_verif_shuttle, never set by cargo features) take the
+// cache locks from the shuttle scheduler so that their interleavings can be explored.
+#[cfg(savefile_verif_shuttle)]
+use shuttle::sync::{Mutex, MutexGuard};
+#[cfg(savefile_verif_shuttle)]
+use std::sync::Arc;
 use std::task::Wake;
 use std::{ptr, slice};
 
@@ -962,6 +969,15 @@ static ABI_CONNECTION_TEMPLATES: Mutex<
 
 struct Guard<'a, K: Hash + Eq, V> {
     guard: MutexGuard<'a, Option<HashMap<K, V>>>,
+}
+
+/// Simulation hook: forget the negotiated connection templates and resolved entry points, so that every
+/// simulated execution starts from "first use". Loaded libraries stay loaded.
+#[cfg(savefile_verif_shuttle)]
+#[doc(hidden)]
+pub fn __verif_reset_caches() {
+    *ENTRY_CACHE.lock().unwrap() = None;
+    *ABI_CONNECTION_TEMPLATES.lock().unwrap() = None;
 }
 
 impl<K: Hash + Eq, V> std::ops::Deref for Guard<'_, K, V> {
